@@ -109,7 +109,7 @@ def clock_values(ctx):
         hi = (EPOCH + 230 * 365 * 86400 * 10**7) // unit
         if name == "L0":
             ks.update(range(lo, min(hi, lo + epochs)))
-        while len(ks) < epochs:
+        while len(ks) < min(epochs, hi - lo):       # (there are fewer than 200 L0 intervals in the 230 years swept)
             ks.add(rng.randrange(lo, hi))
         for k in sorted(ks):
             offs = range(-width, width + 1) if (ctx.thorough or name == "L0") else list(range(-20, 21)) + [-64, 64]
